@@ -27,6 +27,21 @@ theorem fromParts_tokPart (dec : EscDec) (ue : Bool) (ts : List Str)
       rw [unicodeEscape_of_no_backslash dec (h t ht)]
       rfl
 
+/-- parts that are not decoded again come back as they are, whatever characters they hold -/
+theorem fromParts_tokPart_noesc (dec : EscDec) (ts : List Str) :
+    fromParts dec false (ts.map tokPart) = .ok (ts.map Part.key) := by
+  unfold fromParts
+  rw [mapM_ok _ (fun p => Part.key (partStr p))]
+  · simp only [List.map_map]
+    congr 1
+    apply List.map_congr_left
+    intro t _
+    simp [partStr_tokPart]
+  · intro p hp
+    obtain ⟨t, ht, rfl⟩ := List.mem_map.mp hp
+    rw [partStr_tokPart]
+    rfl
+
 theorem tokens_map_key (ts : List Str) : tokens (ts.map Part.key) = ts := by
   unfold tokens
   simp only [List.map_map]
@@ -73,7 +88,7 @@ theorem applyTo_eq (dec : EscDec) (ue : Bool) (r : Rel) (base : List Part) :
       if r.origin > base.length then .error .relIndex
       else
         offStage r.index (base.take (base.length - r.origin)) >>= fun p1 =>
-        sufStage r.suffix p1 >>= fun p2 => fromParts dec ue p2 := by
+        sufStage r.suffix p1 >>= fun p2 => fromParts dec false p2 := by
   unfold applyTo offStage sufStage
   by_cases h : r.origin > base.length
   · simp only [h, if_true]; rfl
@@ -227,7 +242,7 @@ theorem applyTo_tokPart (dec : EscDec) (ue : Bool) (r : RelSpec) (base : List St
     (hneg : ∀ t ∈ base, ∀ i, parseIndexToken t = some i → 0 ≤ i) :
     applyTo dec ue ⟨r.origin, r.offset, sufOf r⟩ (base.map tokPart) =
       match specApply r base with
-      | some ts => fromParts dec ue (ts.map tokPart)
+      | some ts => fromParts dec false (ts.map tokPart)
       | none => .error .relIndex := by
   rw [applyTo_eq, specApply_eq]
   simp only [List.length_map]
@@ -239,7 +254,7 @@ theorem applyTo_tokPart (dec : EscDec) (ue : Bool) (r : RelSpec) (base : List St
     | none => rfl
     | some k =>
       simp only [Option.bind_some]
-      show (sufStage (sufOf r) (k.map tokPart) >>= fun p2 => fromParts dec ue p2) = _
+      show (sufStage (sufOf r) (k.map tokPart) >>= fun p2 => fromParts dec false p2) = _
       rw [sufStage_tokPart]
       cases specSuf r k <;> rfl
 
